@@ -41,7 +41,12 @@ def _point(cname, pk):
         return bits.point(pk)
 
 
-IMPL = {"verify": _verify, "sig_verify": _sig_verify, "low_s": _low_s, "point": _point}
+def _cli_sig_verify(cname, sg, pk, msg, pre, fi):
+    from c01 import _cli_sig_verify as f
+    return f(cname, sg, pk, msg, pre, fi)
+
+
+IMPL = {"cli_sig_verify": _cli_sig_verify, "verify": _verify, "sig_verify": _sig_verify, "low_s": _low_s, "point": _point}
 
 
 def model_call(c):
@@ -49,7 +54,7 @@ def model_call(c):
     cv = CURVES[a[0]]
     if op == "verify":
         return "c02_verify", [cv["p"], cv["a"], cv["b"], cv["n"], cv["G"], a[1], a[2], a[3], a[4]]
-    if op == "sig_verify":
+    if op in ("sig_verify", "cli_sig_verify"):
         return "c02_sig_verify", [cv["p"], cv["a"], cv["b"], cv["n"], cv["G"], a[1], a[2], a[3], a[4]]
     if op == "low_s":
         return "c02_ensure_sig_low_s", [cv["n"], a[1]]
@@ -106,6 +111,16 @@ def ref_der_decode(b):
 
 def prop_oracle(c):
     op, a = c["op"], c["args"]
+    if op == "cli_sig_verify":
+        def run(f, args):
+            try:
+                return ("ok", f(*args))
+            except Exception as e:
+                return ("err", type(e).__name__)
+        got, want = run(_cli_sig_verify, a), run(_sig_verify, a[:5])
+        if got != want and not (got[0] == want[0] == "err"):
+            return "`bits sig --verify` gives %r where bits.sig_verify gives %r" % (got, want)
+        op, a = "sig_verify", a[:5]
     cv = CURVES[a[0]]
     n = cv["n"]
     if op == "verify":
@@ -319,6 +334,15 @@ def gen_cases(rng, tier):
             out.append(case(cname + "-point-uncompressed", "point", cname, sec1(Q, False)))
             out.append(case(cname + "-point-65-with-02", "point", cname, b"\x02" + sec1(Q, False)[1:], strict=True))
             out.append(case(cname + "-point-33-with-04", "point", cname, b"\x04" + sec1(Q, True)[1:], strict=True))
+    # --- `bits sig --verify` = bits.sig_verify = the model: a sample of the sig_verify cases through main(), the
+    #     public key on stdin in rotating input formats
+    sv = [c for c in out if c["op"] == "sig_verify"]
+    small = [c for c in sv if c["args"][0] != "secp"]
+    secp = [c for c in sv if c["args"][0] == "secp"]
+    fm = ("raw", "hex", "bin")
+    pick = rng.sample(small, min(len(small), 400 if T else 50)) + rng.sample(secp, min(len(secp), 40 if T else 8))
+    for k, c in enumerate(pick):
+        out.append(case("cli-" + c["cls"], "cli_sig_verify", *c["args"], fm[k % 3], strict=c.get("strict", False)))
     return out
 
 
